@@ -6,6 +6,7 @@ export GOFLAGS=-mod=mod GOPROXY=off GOSUMDB=off GOTOOLCHAIN=local
 mkdir -p ../.build ../evidence ../replays
 go run ./tools/gentypes /repo/types.go c20/zz_types_test.go
 for d in c*/; do
+  if [ "$d" = "c09/" ]; then go test -c -race -tags verif -vet=off -o ../.build/c09-race.test ./c09 >/dev/null; continue; fi
   d=${d%/}
   go test -c -tags verif -vet=off -o ../.build/$d.test ./$d >/dev/null
 done
